@@ -210,7 +210,7 @@ def main():
         pr, kn = run_history([tuple(o) for o in c["ops"]], c.get("recursive", True), tuple(c["inject"]) if c.get("inject") else None, c.get("small", False), c.get("batched", False))
         replay_result(bool(pr if c.get("expect") != "known" else kn), (pr or kn)[:2])
     L = 3 if TIER == "quick" else 4
-    bat = Battery({"names": NAMES + ["pre", "a2"], "history length": L, "operations": "mkdir, nested mkdir, rmdir, rename, move out, move in, remove moved-out, touch", "pacing": "reader drained after every operation", "probes": "every directory of the final tree",
+    bat = Battery({"names": NAMES + ["pre", "a2"], "history length": L, "operations": "mkdir, nested mkdir, rmdir, rename, move out, move in, remove moved-out, touch", "pacing": "reader drained after every operation; + the same histories with one record per read_events() call; + renames right after arrival and file operations issued back to back (what the pacing condition allows), also with single renames read in two halves", "probes": "every directory of the final tree",
                    "faults": "ENOSPC/ENOENT at inotify_add_watch #1..#3 during nested creates"})
     hs = list(histories(L))
     rng.shuffle(hs)
